@@ -15,6 +15,7 @@ from ..engine.mutate import Mutant, Variant, in_function, replace_once, sub_once
 from ..engine.runner import Rule
 from ..engine.source import AnalysisError
 from ..engine.sqlfront import split_conjuncts, tokenize
+from . import shared
 from .common import callee_name, calls_in
 
 EXPLANATION = (
@@ -430,6 +431,7 @@ WAKE_TABLE = {
 
 def rule_wakeups(ctx):
     """R-C10-5."""
+    shared.check_built_notifies(ctx, "a parked (deferred) consumer of a revalidated output is never woken: it satisfies every dispatch condition yet the build phase ends with it pending")
     b = ctx.prog.func("builder.Builder._task_done")
     ctx.check(any(ast.unparse(c.func) == "self.wake_job_loop.set" for c in calls_in(b.node)), b.fq, "task completion wakes the job loop", "a finished task no longer wakes job_loop", "wake_job_loop.set()")
     h = ctx.prog.func("builder.Builder.handle_done_tasks")
@@ -566,6 +568,7 @@ def _drop_trigger(name):
 
 
 MUTANTS = [
+    Mutant("revalidated-not-propagated", "step.py", in_function("Step.mark_completed", replace_once("                    file.set_state(FileState.BUILT)\n                    self.graph.mark_consuming_steps_pending(file)\n", "                    file.set_state(FileState.BUILT)\n")), ("R-C10-5",)),
     Mutant("when-narrowed-detached", "step.py", replace_once("AFTER UPDATE OF detached ON node\nWHEN OLD.detached != NEW.detached\nBEGIN\n    UPDATE step SET _check_ready = 1", "AFTER UPDATE OF detached ON node\nWHEN NEW.detached AND NOT OLD.detached\nBEGIN\n    UPDATE step SET _check_ready = 1"), ("R-C10-1",)),
     Mutant("when-narrowed-file-state", "step.py", sub_once(r"(CREATE TRIGGER IF NOT EXISTS step_file_check_ready_upd AFTER UPDATE OF state ON file\n)WHEN OLD.state != NEW.state", r"\1WHEN OLD.state != NEW.state AND NEW.state != " + "{FileState.OUTDATED.value}"), ("R-C10-1",)),
     Mutant("drop-trigger-dependency-ins", "step.py", _drop_trigger("step_dependency_check_after_ins"), ("R-C10-1",)),
